@@ -36,7 +36,7 @@ def assigned_from(fi, var):
             and isinstance(n.targets[0], ast.Name) and n.targets[0].id == var]
 
 
-def before_after(fi, perturb_var, extra_after=None, x_name="X"):
+def before_after(fi, perturb_var, extra_after=None, x_name="X", allow_rebound=False):
     """func(model, X, ...) -> y_before ; func(model, <perturbed>, ...) -> y_after"""
     out = []
     calls = calls_named(fi, "func")
@@ -53,7 +53,7 @@ def before_after(fi, perturb_var, extra_after=None, x_name="X"):
         rb = rebound_before(fi, x_name, c)
         if unparse(c.args[0]) != "model":
             out.append(violation("ROLE", fi, role_b, "first argument is `%s`" % unparse(c.args[0]), c))
-        elif rb:
+        elif rb and not allow_rebound:
             out.append(violation("ROLE", fi, role_b, "%s is rebound at line %d before the 'before' call" % (x_name, rb[0].lineno), rb[0]))
         else:
             out.append(holds("ROLE", fi, role_b, unparse(c)[:80], c, nontrivial=False))
